@@ -384,7 +384,9 @@ def rules(tier):
             # C15-db: is_parent_around with < instead of <=
             ('C15.R14', _shared_rule('c08', 'r2_region_agreement')),
             # C15-da: .omn opened for appending
-            ('C15.R15', _shared_rule('plumbing', 'writers_truncate'))]
+            ('C15.R15', _shared_rule('plumbing', 'writers_truncate')),
+            # C15-eb: restore_omen warms the memo with the restored (advanced) parse tree
+            ('C15.R16', _shared_rule('plumbing', 'who_may'))]
 
 
 META = {
